@@ -555,7 +555,7 @@ def c03_imm_form(mn, xop, dest, style, neg, kind):
     sk.t(", ")
     k, w = imm_num(sk, style, neg)
     sk.tnum(k, style, neg)
-    sk.decl.append("unsigned long W = %s; int OSZ = %s;" % (w, size))
+    sk.decl.append("unsigned long WV = %s; int OSZ = %s;" % (w, size))
     chk_op(sk, xop)
     chk_nopd(sk, 2)
     if dest[0] == "reg":
@@ -564,13 +564,13 @@ def c03_imm_form(mn, xop, dest, style, neg, kind):
         chk_mem(sk, 0, memvar, "OSZ")
     sk.rexw = "OSZ == 64"
     if kind in ("alu", "test", "movm"):
-        sk.decl.append("ASSUME(vf_representable(W, OSZ, 1));")
+        sk.decl.append("ASSUME(vf_representable(WV, OSZ, 1));")
         sk.post.append('CHECK(D.osize == OSZ, "operand size as written");')
-        sk.post.append('CHECK(vf_chk_imm(&D.opd[1], W, OSZ), "immediate field, after the architecture\'s extension, equals the written value at the operand width");')
+        sk.post.append('CHECK(vf_chk_imm(&D.opd[1], WV, OSZ), "immediate field, after the architecture\'s extension, equals the written value at the operand width");')
     elif kind == "shift":
-        sk.decl.append("ASSUME(W <= 0xff && W != 1);")
+        sk.decl.append("ASSUME(WV <= 0xff && WV != 1);")
         sk.post.append('CHECK(D.osize == OSZ, "operand size as written");')
-        sk.post.append('CHECK(D.opd[1].kind == XK_IMM && (D.opd[1].imm & 0xff) == (long)W, "shift count equals the written value");')
+        sk.post.append('CHECK(D.opd[1].kind == XK_IMM && (D.opd[1].imm & 0xff) == (long)WV, "shift count equals the written value");')
     return sk
 
 
@@ -581,14 +581,14 @@ def c03_mov_r64(style, neg):
     r = sk.reg(G64)
     k, w = imm_num(sk, style, neg)
     sk.t("mov ").treg(r).t(", ").tnum(k, style, neg)
-    sk.decl.append("unsigned long W = %s;" % w)
+    sk.decl.append("unsigned long WV = %s;" % w)
     sk.want = "XOP_MOV"
     sk.post.append('CHECK(D.op == XOP_MOV && D.nopd == 2 && D.opd[0].kind == XK_REG && D.opd[0].num == R0.num, "mov to the written register number");')
     sk.post.append('CHECK(D.opd[1].kind == XK_IMM, "immediate source");')
     sk.post.append('unsigned long effect = D.opd[0].rc == RC_GPR64 ? (unsigned long)D.opd[1].imm '
                    ': (unsigned long)(uint32_t)D.opd[1].imm;')
     sk.post.append('CHECK(D.opd[0].rc == RC_GPR64 || D.opd[0].rc == RC_GPR32, "destination is the 64-bit register or its zero-extending 32-bit half");')
-    sk.post.append('CHECK(effect == W, "executing the emitted mov leaves the written 64-bit value in the register");')
+    sk.post.append('CHECK(effect == WV, "executing the emitted mov leaves the written 64-bit value in the register");')
     sk.meta["mov64"] = True
     return sk
 
@@ -598,11 +598,11 @@ def c03_mov_small(style, neg):
     r = sk.reg("(CM_GPR8ALL | CM(RC_GPR16) | CM(RC_GPR32))")
     k, w = imm_num(sk, style, neg)
     sk.t("mov ").treg(r).t(", ").tnum(k, style, neg)
-    sk.decl.append("unsigned long W = %s; int OSZ = vf_regsize(R0);" % w)
-    sk.decl.append("ASSUME(vf_representable(W, OSZ, 0));")
+    sk.decl.append("unsigned long WV = %s; int OSZ = vf_regsize(R0);" % w)
+    sk.decl.append("ASSUME(vf_representable(WV, OSZ, 0));")
     chk_op(sk, "XOP_MOV"); chk_nopd(sk, 2); chk_reg(sk, 0, r)
     sk.post.append('CHECK(D.osize == OSZ, "operand size as written");')
-    sk.post.append('CHECK(vf_chk_imm(&D.opd[1], W, OSZ), "immediate equals the written value at the operand width");')
+    sk.post.append('CHECK(vf_chk_imm(&D.opd[1], WV, OSZ), "immediate equals the written value at the operand width");')
     return sk
 
 
@@ -636,10 +636,10 @@ def c03_families(quick):
         a = sk.reg(GV); b = sk.reg(GV); same_size(sk, a, b)
         k, w = imm_num(sk, st, neg)
         sk.t("imul ").treg(a).t(", ").treg(b).t(", ").tnum(k, st, neg)
-        sk.decl.append("unsigned long W = %s; int OSZ = vf_regsize(R0);" % w)
-        sk.decl.append("ASSUME(vf_representable(W, OSZ, 1));")
+        sk.decl.append("unsigned long WV = %s; int OSZ = vf_regsize(R0);" % w)
+        sk.decl.append("ASSUME(vf_representable(WV, OSZ, 1));")
         chk_op(sk, "XOP_IMUL"); chk_nopd(sk, 3); chk_reg(sk, 0, a); chk_reg(sk, 1, b); chk_osize_reg(sk, a)
-        sk.post.append('CHECK(vf_chk_imm(&D.opd[2], W, OSZ), "immediate equals the written value at the operand width");')
+        sk.post.append('CHECK(vf_chk_imm(&D.opd[2], WV, OSZ), "immediate equals the written value at the operand width");')
         out.append(sk)
         for sh in ([MemShape("b+i*s+d", 4)] if quick else [MemShape("b"), MemShape("b+i*s+d", 4), MemShape("s*i", 2)]):
             sk = Skel("c03.imul.rmi.%s.%s%s" % (sh.label(), "neg" if neg else "", st), "imm.imul", "imul")
@@ -649,20 +649,20 @@ def c03_families(quick):
             mem_validity(sk, mv, sh)
             k, w = imm_num(sk, st, neg)
             sk.t(", ").tnum(k, st, neg)
-            sk.decl.append("unsigned long W = %s; int OSZ = vf_regsize(R0);" % w)
-            sk.decl.append("ASSUME(vf_representable(W, OSZ, 1));")
+            sk.decl.append("unsigned long WV = %s; int OSZ = vf_regsize(R0);" % w)
+            sk.decl.append("ASSUME(vf_representable(WV, OSZ, 1));")
             chk_op(sk, "XOP_IMUL"); chk_nopd(sk, 3); chk_reg(sk, 0, a); chk_mem(sk, 1, mv, "OSZ"); chk_osize_reg(sk, a)
-            sk.post.append('CHECK(vf_chk_imm(&D.opd[2], W, OSZ), "immediate equals the written value at the operand width");')
+            sk.post.append('CHECK(vf_chk_imm(&D.opd[2], WV, OSZ), "immediate equals the written value at the operand width");')
             out.append(sk)
         # push imm (64-bit push, imm8/imm32 sign-extended)
         sk = Skel("c03.push.i.%s%s" % ("neg" if neg else "", st), "imm.push", "push")
         k, w = imm_num(sk, st, neg)
         sk.t("push ").tnum(k, st, neg)
-        sk.decl.append("unsigned long W = %s;" % w)
-        sk.decl.append("ASSUME(vf_representable(W, 64, 1));")
+        sk.decl.append("unsigned long WV = %s;" % w)
+        sk.decl.append("ASSUME(vf_representable(WV, 64, 1));")
         chk_op(sk, "XOP_PUSH"); chk_nopd(sk, 1)
         sk.post.append('CHECK(D.osize == 64, "64-bit push");')
-        sk.post.append('CHECK(vf_chk_imm(&D.opd[0], W, 64), "pushed immediate, sign-extended, equals the written value");')
+        sk.post.append('CHECK(vf_chk_imm(&D.opd[0], WV, 64), "pushed immediate, sign-extended, equals the written value");')
         out.append(sk)
     for mn, xop in (("shld", "XOP_SHLD"), ("shrd", "XOP_SHRD")):
         for st in ("hex", "dec"):
@@ -695,7 +695,7 @@ def c05_rel(mn, xop, kwd, style, neg, has_rel8, has_rel32):
     if kwd:
         sk.t(kwd + " ")
     sk.tnum(k, style, neg)
-    sk.decl.append("unsigned long W = %s; long d = (long)W;" % ("(0ul - N%d)" % k if neg else "N%d" % k))
+    sk.decl.append("unsigned long WV = %s; long d = (long)WV;" % ("(0ul - N%d)" % k if neg else "N%d" % k))
     # the written value is the mathematical integer +-N; beyond 2^63 the two's complement reading differs: keep |d| < 2^62
     sk.decl.append("ASSUME(N%d < (1ul << 62));" % k)
     in8 = "(d >= -128 && d <= 127)"
